@@ -33,6 +33,20 @@ CHECKS = {
    note=NOTE_COMMON+" The verdict is relative to the process-pool contract in symx/cfmodel.py (concurrent.futures documentation) and to the exact-solve idealisation; HDF5 back end is an in-memory store (C17 checks real files); worker-local module state is not modelled. Counterexamples are replayed with a real ProcessPoolExecutor, the completion order forced by task run times.",
    technique="differential symbolic execution of the real dispatch/bookkeeping code under a nondeterministic scheduler model (completion order and worker count are solver variables; decision-prefix exploration of all permutations) with an uninterpreted solver; SMT validity of result equality per path",
    ref="DESIGN.md §6 C11"),
+ 'C18': dict(
+   text="Parser / routing / acceptance core. The list of documented options is re-read from docs/manual/cli.rst on every run. The real "
+        "cli.parser.parse_config_file runs on a MODELLED configuration (configparser replaced; getint/getfloat/float(get) return solver "
+        "variables, getboolean both truth values, terminal arguments symbolic-or-absent) with one documented key present at a time: z3 "
+        "decides that the value arrives unchanged, with its documented type, in the dictionary from which run.py hands it to the API "
+        "(simulation kwargs, solver_opts, gridding_opts, noise options, data selection, layered options, files); an undocumented key in "
+        "any section raises; terminal > configuration file > default for nproc (symbolic, clipped at 1), layered and five file names over "
+        "all present/absent combinations. Concrete parts (labelled): what the real cli.run.simulation passes on for a real configuration "
+        "file holding exactly that option is accepted by the real API function that receives it (Simulation, estimate_gridding_opts/"
+        "construct_mesh, solve, add_noise, select, extract_1d), and run.py hands the parsed dictionaries verbatim to Simulation/select/"
+        "compute for the three functions. Equality of files written by whole CLI and API runs is outside the claim.",
+   note=NOTE_COMMON+" Key presence is enumerated (one documented key at a time), not symbolic; list-valued options use a fixed representative text on which the real split/strip parsing runs; argparse (cli/main.py) and combinations of many options are outside.",
+   technique="symbolic execution of the real configuration parser over a modelled configparser with solver-variable option values and symbolic terminal arguments (decision-prefix exploration); SMT validity of routed == configured; concrete acceptance runs of the real run.py/API per documented key",
+   ref="DESIGN.md §6 C18"),
  'C19': dict(
    text="Extraction and bookkeeping core with the 1D modeller as an uninterpreted function. (A) Model.extract_1d is executed with all "
         "horizontal widths symbolic under a NONDETERMINISTIC ellipse selection (maps.ellipse_indices returns any boolean mask; each of the "
@@ -220,7 +234,6 @@ CHECKS = {
 
 NA = {
  'C06': "convergence factors of full cycles on 8^3..64^3 grids are floating-point magnitudes; no symbolic encoding within reach of z3/cvc5 (DESIGN §7)",
- 'C18': "finite list of documented keys x whole-program runs through configparser/regex/file I/O; not a solver problem (DESIGN §7)",
 }
 PENDING = "check not built yet in this round (planned, see DESIGN.md §6); listed here until its harness lands"
 ALL = [f"C{i:02d}" for i in range(1, 21)]
